@@ -1115,6 +1115,11 @@ pub fn run_c07(tier: Tier) -> i32 {
             rep.machinery(format!("vacuous: no move-less root with mate={} and {} pseudo-legal moves", k.0, k.1));
         }
     }
+    // ---- (2g) neighbouring position commands and rejected position commands (shared with C13, C16)
+    let t0 = Instant::now();
+    let n_nb = position_command_sessions(&rep, tier, "C07", &AtomicU64::new(0));
+    stats.gos.fetch_add(n_nb, Ordering::Relaxed);
+    fams.push(json!({"family": "position A, go, position B (one token different), go — and position A, a rejected position command, go", "judged_searches": n_nb, "secs": t0.elapsed().as_secs_f64()}));
     // ---- (2c) in-search message alphabet: message X first visible at poll k1, stop at poll k2 >= k1;
     // and stray messages while idle before the go (they must be ignored)
     let t0 = Instant::now();
@@ -1436,7 +1441,9 @@ pub fn replay_c07(case: &Value) -> i32 {
                 s.line(l);
             }
         }
-        s.line(&pos_line);
+        if !case["context"]["rejected_position_command_before"].as_bool().unwrap_or(false) {
+            s.line(&pos_line);
+        }
         let (plan, st) = plan_for(&spec, rate, n2, stop_at.max(1));
         let out = run_go(&mut s, &go, plan, &|kk| if kk == st { vec![GateAction::Stop] } else { vec![] });
         let (late, _) = s.quit();
@@ -1674,6 +1681,128 @@ fn c16_judge_search(rep: &Reporter, root: &Pos, lines: &[String], ctx: &Value, n
     }
 }
 
+/// Sessions built from NEIGHBOURING position commands on one engine instance.
+/// (a) `position A`, go, `position B`, go — B differs from A in one token (another move from the same
+///     root, another promotion letter on the same squares, one FEN field): the second search is
+///     judged for B (`what` = "C07": bestmove legal in B; "C16": every output line, pv legal in B).
+/// (b) `position A` (accepted), then a REJECTED position command (A continued by legal moves and an
+///     illegal one; a prefix of A and an illegal one; another root), then go: judged for A
+///     (`what` = "C07" or "C13").
+/// Returns the number of judged searches.
+pub fn position_command_sessions(rep: &Reporter, tier: Tier, what: &str, n_lines: &AtomicU64) -> u64 {
+    let roots = ["6k1/1r2P3/8/8/8/8/1R6/4K3 w - - 0 1", "rnbqkbnr/pppppppp/8/8/8/8/PPPPPPPP/RNBQKBNR w KQkq - 0 1", "r3k2r/8/8/8/8/8/8/R3K2R w KQkq - 0 1", "4k3/8/8/3pP3/8/8/8/4K3 w - d6 0 1", "8/2P5/8/8/8/8/5p2/K6k b - - 0 1"];
+    let judged = AtomicU64::new(0);
+    let per_root = if tier == Tier::Quick { 10 } else { 40 };
+    let mut jobs_a: Vec<(String, Pos, String, Pos)> = Vec::new(); // (command A, root A, command B, root B)
+    let mut jobs_b: Vec<(String, Pos, String)> = Vec::new(); // (command A, root A, rejected command)
+    for f in roots {
+        let base = Pos::from_fen(f).unwrap();
+        let legal = base.legal();
+        // promotions first (all four letters of a push), then a spread of the others
+        let mut chosen: Vec<Mv> = legal.iter().filter(|m| m.promo != 0).copied().collect();
+        let step = (legal.len() / per_root).max(1);
+        chosen.extend(legal.iter().filter(|m| m.promo == 0).step_by(step).copied());
+        chosen.truncate(per_root + 8);
+        let cmds: Vec<(String, Pos)> = chosen.iter().map(|m| (position_line(&base, &[m.uci()]), base.make(m))).collect();
+        for (ca, ra) in &cmds {
+            for (cb, rb) in &cmds {
+                if ca != cb {
+                    jobs_a.push((ca.clone(), ra.clone(), cb.clone(), rb.clone()));
+                }
+            }
+        }
+        // FEN-field neighbours of the root itself
+        let mut variants: Vec<Pos> = Vec::new();
+        for edit in 0..5 {
+            let mut q = base.clone();
+            match edit {
+                0 => q.half = base.half + 7,
+                1 => q.full = base.full + 30,
+                2 => q.castle = 0,
+                3 => q.ep = NO_EP,
+                _ => {
+                    q.stm = 1 - base.stm;
+                    q.ep = NO_EP;
+                }
+            }
+            if q != base && q.is_legal_position() && q.has_legal_move() {
+                variants.push(q);
+            }
+        }
+        for q in &variants {
+            jobs_a.push((position_line(&base, &[]), base.clone(), position_line(q, &[]), q.clone()));
+            jobs_a.push((position_line(q, &[]), q.clone(), position_line(&base, &[]), base.clone()));
+        }
+        // (b) rejected commands after an accepted one
+        for (ca, ra) in cmds.iter().take(4) {
+            let first = ca.split(" moves ").nth(1).unwrap_or("").to_string();
+            let mut ext: Vec<String> = vec![first.clone()];
+            let mut q = ra.clone();
+            for _ in 0..2 {
+                if let Some(m) = q.legal().first().copied() {
+                    ext.push(m.uci());
+                    q = q.make(&m);
+                }
+            }
+            let illegal = "e4e5".to_string(); // from an empty square in every root used here, or blocked
+            let bad = if q.find_legal_uci(&illegal).is_none() { illegal } else { "a1a1".to_string() };
+            let mut continued = ext.clone();
+            continued.push(bad.clone());
+            jobs_b.push((ca.clone(), ra.clone(), position_line(&base, &continued)));
+            jobs_b.push((ca.clone(), ra.clone(), position_line(&base, &[first.clone(), bad.clone()])));
+            jobs_b.push((ca.clone(), ra.clone(), position_line(&base, &[bad.clone()])));
+            jobs_b.push((ca.clone(), ra.clone(), format!("position startpos moves e2e4 e7e5 {}", "e1e3")));
+        }
+    }
+    if what != "C13" {
+        par_map_fine(&jobs_a, |(ca, _ra, cb, rb)| {
+            for first_go in ["go depth 2", "go movetime 0"] {
+                let mut s = Session::new(false);
+                s.line(ca);
+                let _ = run_go(&mut s, first_go, Plan::virtual_rate(1_000), &none);
+                s.line(cb);
+                let spec = GoSpec { line: "go depth 2".to_string(), needs_stop: false, searchmoves: vec![] };
+                let out = run_go(&mut s, &spec.line, Plan::virtual_rate(1_000), &none);
+                let (late, _) = s.quit();
+                let late_best = late.iter().filter(|e| matches!(e, Ev::Best(..))).count();
+                judged.fetch_add(1, Ordering::Relaxed);
+                let ctx = json!({"prefix": [ca, first_go], "neighbouring_position_commands": true});
+                if what == "C16" {
+                    c16_judge_search(rep, rb, &out.obs.lines, &json!({"session": [ca, first_go, cb, "go depth 2"], "judged": "the last search"}), n_lines);
+                } else {
+                    c07_judge(rep, rb, "neighbour_position", cb, &spec, "1us/node", &out, late_best, ctx);
+                }
+            }
+        });
+    }
+    if what != "C16" {
+        par_map_fine(&jobs_b, |(ca, ra, rejected)| {
+            let mut s = Session::new(false);
+            s.line(ca);
+            let _ = run_go(&mut s, "go depth 1", Plan::virtual_rate(1_000), &none);
+            s.line(rejected);
+            let spec = GoSpec { line: "go depth 1".to_string(), needs_stop: false, searchmoves: vec![] };
+            let out = run_go(&mut s, &spec.line, Plan::virtual_rate(1_000), &none);
+            let (late, _) = s.quit();
+            let late_best = late.iter().filter(|e| matches!(e, Ev::Best(..))).count();
+            judged.fetch_add(1, Ordering::Relaxed);
+            if what == "C13" {
+                let legal: Vec<String> = ra.legal().iter().map(|m| m.uci()).collect();
+                let ok = match &out.best {
+                    Some(b) => legal.contains(b),
+                    None => legal.is_empty(),
+                };
+                if !ok || out.n_best != 1 {
+                    rep.report("position_command:rejected_move_list_partly_applied".to_string(), json!({"kind": "rejected_position", "accepted": ca, "rejected": rejected, "detail": {"bestmove_of_the_following_go": out.best, "legal_in_the_accepted_position": legal}}));
+                }
+            } else {
+                c07_judge(rep, ra, "after_rejected_position", ca, &spec, "1us/node", &out, late_best, json!({"prefix": [ca, "go depth 1", rejected], "rejected_position_command_before": true}));
+            }
+        });
+    }
+    judged.load(Ordering::Relaxed)
+}
+
 pub fn run_c16(tier: Tier) -> i32 {
     let started = Instant::now();
     let rep = Reporter::new("C16");
@@ -1815,9 +1944,14 @@ pub fn run_c16(tier: Tier) -> i32 {
         rep.machinery("vacuous: no long search reached its first real poll");
     }
     let long_secs = t0.elapsed().as_secs_f64();
+    // neighbouring position commands: position A, go, position B (one token different), go
+    let t_nb = Instant::now();
+    let n_nb = position_command_sessions(&rep, tier, "C16", &n_lines);
+    let nb_secs = t_nb.elapsed().as_secs_f64();
     // the real binary: whole sessions over pipes, every line parsed, same invariants
     let bin_lines = c16_binary(&rep, &n_lines);
     let mut cov = Coverage::new();
+    cov.set("neighbouring_position_command_sessions", json!({"judged_searches": n_nb, "secs": nb_secs}));
     cov.states = jobs.len() as u64;
     cov.transitions = n_lines.load(Ordering::Relaxed);
     cov.traces_validated = bin_lines;
